@@ -98,6 +98,18 @@ func candidateSignatures(m *Mismatch, ev map[string]any, sc *Scenario) []string 
 	}
 	if strings.HasPrefix(m.Check, "clean.") && sc != nil {
 		run, count := lastProcRunCount(sc)
+		if ev != nil && ev["ev"] == "clean" {
+			// the process this Clean ran in (not necessarily the scenario's last one)
+			if r, ok := ev["run"].(string); ok {
+				run = r
+				count = 1
+				if n, ok := ev["count"].(float64); ok && n > 1 {
+					count = int(n)
+				} else if n, ok := ev["count"].(int); ok && n > 1 {
+					count = n
+				}
+			}
+		}
 		id := strings.TrimSuffix(strings.TrimPrefix(m.Hdr, "["), "]")
 		name := id
 		if i := strings.Index(id, " - "); i >= 0 {
@@ -215,14 +227,24 @@ func codeRuleProtectsFile(sc *Scenario, absPath, run string) bool {
 	}
 	i := strings.LastIndex(absPath, "/")
 	dir, base := absPath[:i], absPath[i+1:]
-	if !strings.HasSuffix(dir, "/__snapshots__") || base != "main_test.snap" {
+	funcs := driverFuncs
+	switch base {
+	case "main_test.snap":
+	case "other_test.snap":
+		funcs = []string{"otherFileHelper", "init"}
+	case "pay.v2_test.snap":
+		funcs = []string{"dotFileHelper", "init", "TestV2Only"}
+	default:
+		return false
+	}
+	if !strings.HasSuffix(dir, "/__snapshots__") {
 		return false
 	}
 	re, err := regexp.Compile(run)
 	if err != nil {
 		return false
 	}
-	for _, f := range driverFuncs {
+	for _, f := range funcs {
 		if re.MatchString(f) {
 			return false
 		}
